@@ -11,7 +11,7 @@ open Golem.Go Golem.Model Golem.Model.DSL Golem.Model.StageCfg
 
 variable {σ α β ε : Type}
 
-attribute [local simp] runBody bind BodyM.bind pure BodyM.pure selSend plainSend ret next pollDone getS setS visit arrow
+attribute [local simp] runBody callsOf bind BodyM.bind pure BodyM.pure applyF selSend plainSend ret next pollDone getS setS visit arrow
   toExcept catchEm catchAfter mkStage
 
 /-- loop body and deferred sends: the regenerated `Partition` IS the hand-written stage -/
@@ -21,6 +21,11 @@ theorem stage_gen (f : α → Bool × Option ε) :
   refine ⟨?_, rfl⟩
   funext s a
   cases h : (f a).2 <;> cases h2 : (f a).1 <;> simp [Golem.Gen.Pipe.Partition.body, h, h2]
+
+/-- the regenerated loop body calls the user-supplied function exactly once per element, whatever the outcome -/
+theorem calls_gen (f : α → Bool × Option ε) (s : Unit) (a : α) :
+    callsOf (Golem.Gen.Pipe.Partition.body f a) s = 1 := by
+  simp [Golem.Gen.Pipe.Partition.body]
 
 /-- `make`, `go`, `close`: capacities, worker layout, close order -/
 theorem cfg_gen : Golem.Gen.Pipe.Partition.cfg = StageCfg.pipePartition := rfl
